@@ -11,6 +11,10 @@ CHECKS = {
    technique="bounded-exhaustive enumeration of feature-subset lattice, escape-channel product and re-saved corpus; oracle = independent Python OPC/SpreadsheetML validator + decoder",
    text="Every package of the feature lattice (2^11 subsets thorough, size<=2 and co-size<=1 quick) x writers x macro, every escape channel x special string, and every re-saved corpus file is validated and decoded by an independent stdlib-only Python reader and compared with the in-memory model.",
    note="Trusted: pyref/xlsx_ref.py (zipfile + expat) as the independent reader; it implements the subset of ECMA-376 named in DESIGN 2.5."),
+ "C04": dict(level="model_checking", engine="E2", design="3 C04",
+   technique="exhaustive enumeration of histories over {save+reload, single-cell edit} (depth <=3) from every corpus file and every generated workbook; oracle = full normalised dump equality across generations, edit locality, save-twice equality",
+   text="From every initial state (corpus file, lattice workbook, channel workbook): S, SS, SSS generations must be a fixed point and equal the original under the stated normalisations; every single-cell edit (4 kinds, every cell up to a stated cap + last + fresh position) followed by save+reload may change only that cell and its row/column entry; two saves of one workbook have the same parts and reload to the same content.",
+   note="Trusted: the public-getter dump (harness/src/dump.rs) as 'everything the library models'. Edit enumeration is capped per sheet and by a per-source time budget (both reported)."),
  "C05": dict(level="exploration", engine="E1+P", design="3 C05",
    technique="bounded-exhaustive enumeration of a style alphabet (all 1- and 2-attribute variations + collision family), all ordered pairs and all-at-once workbooks in both orders; oracle = effective style projection equality, table sizes via independent decoder",
    text="Every ordered pair of single-attribute style variations in a two-cell workbook, whole style sets (sigma1, sigma2, separator-collision family) in one workbook in forward and reverse order (covers every earlier/later interning pair), and every 4-state assignment to columns 1..5 / rows 1..3 are saved and reloaded; the field-by-field effective projection must be unchanged and the style tables must not grow between generations 2 and 3.",
